@@ -21,12 +21,12 @@ static encoder_t* mkenc(void* raw, unsigned char* buf, unsigned long cap) {
     // the encoder is built by its REAL constructor (default options); it makes virtual calls on itself (visit_int64 -> visit_double), so it needs its vptr
     return new (raw) encoder_t(bsink{buf, 0, cap});
 }
-#define ENC(NAME, T, CALL) KFN unsigned long NAME(T v, unsigned tag, unsigned char* buf, unsigned long cap) { RAWSTORE(encoder_t, raw); encoder_t* e = mkenc(raw, buf, cap); std::error_code ec; ser_context ctx; e->encoder_t::CALL; return e->sink_.n; }
+#define ENC(NAME, T, CALL) KFN unsigned long NAME(T v, unsigned tag, unsigned char* buf, unsigned long cap) { RAWCTOR(encoder_t, raw); encoder_t* e = mkenc(raw, buf, cap); std::error_code ec; ser_context ctx; e->encoder_t::CALL; return e->sink_.n; }
 ENC(k_cbor_enc_u64, unsigned long, visit_uint64(v, (semantic_tag)tag, ctx, ec))
 ENC(k_cbor_enc_i64, long, visit_int64(v, (semantic_tag)tag, ctx, ec))
 ENC(k_cbor_enc_double, double, visit_double(v, (semantic_tag)tag, ctx, ec))
 ENC(k_cbor_enc_bool, int, visit_bool(v != 0, (semantic_tag)tag, ctx, ec))
 ENC(k_cbor_enc_null, int, visit_null((semantic_tag)tag, ctx, ec))
 ENC(k_cbor_enc_half, unsigned, visit_half((uint16_t)v, (semantic_tag)tag, ctx, ec))
-KFN unsigned long k_cbor_head(unsigned major, unsigned long len, unsigned char* buf, unsigned long cap) { RAWSTORE(encoder_t, raw); encoder_t* e = mkenc(raw, buf, cap); e->write_type_and_length((uint8_t)major, len); return e->sink_.n; }
+KFN unsigned long k_cbor_head(unsigned major, unsigned long len, unsigned char* buf, unsigned long cap) { RAWCTOR(encoder_t, raw); encoder_t* e = mkenc(raw, buf, cap); e->write_type_and_length((uint8_t)major, len); return e->sink_.n; }
 KFN unsigned long k_cbor_min_stringref(unsigned long index) { return cbor::detail::min_length_for_stringref(index); }
